@@ -305,6 +305,23 @@ func VerifC08Put(size int, prior int, maxReads int, maxChunk int, faults int) {
 	}
 }
 
+// VerifC08PutAnnounced: a Put whose announced size differs from the size of the content the digest stands
+// for (a manifest that lies about a layer's size, a truncated transfer): whatever the source delivers, once
+// Put has RETURNED (no crash, no file-system fault) the file is not left with the blob's true size and
+// other content - a later, honest Put of that size would take it for the blob.
+func VerifC08PutAnnounced(size int, announced int, maxReads int, maxChunk int) {
+	d := vfSetup(size, -1, 0)
+	vfCheckOn = false // states inside the operation are the subject of VerifC08Put
+	c := &DiskCache{dir: "/cache", now: time.Now}
+	err := c.Put(d, &vfSource{maxReads: maxReads, maxChunk: maxChunk}, int64(announced))
+	verifReach("put-returned")
+	vfCheckOn = true
+	vfInvariant("after-put-with-wrong-announced-size")
+	if err == nil {
+		verifReach("put-succeeded")
+	}
+}
+
 // VerifC08Chunked: up to nPuts chunk writes with solver-chosen ranges and sources.
 func VerifC08Chunked(size int, nPuts int, faults int) {
 	d := vfSetup(size, -1, faults)
